@@ -446,9 +446,11 @@ def calc_n_cyc_array_w_power_law(values, a_ref, b, cut_off=0.01):
     values = np.asarray(values, dtype=float)
     peak_indices = eqsig.fns.peaks_and_crossings.get_switched_peak_array_indices(values)
     csr_peaks = np.abs(np.take(values, peak_indices))
-    csr_peaks = np.where(csr_peaks < cut_off * np.max(abs(values)), 1.0e-14, csr_peaks)
+    below_cut_off = csr_peaks < cut_off * np.max(abs(values))
+    csr_peaks = np.where(below_cut_off, 1.0e-14, csr_peaks)
     n_ref = 1
     perc = 0.5 / (n_ref * (a_ref / csr_peaks)[:, np.newaxis] ** (1 / b))
+    perc[below_cut_off] = 0  # a peak below the cut-off counts no cycles whatever the units of the series (1e-14 is not small for every a_ref)
     n_eq = np.cumsum(perc, axis=0)
     n_eq = np.insert(n_eq, 0, 0, axis=0)
     peak_indices = np.insert(peak_indices, 0, 0, axis=0)
